@@ -45,7 +45,7 @@ func c07(p *Prog, r *Report) {
 	const R4 = "C07.signature-dominates-response"
 	const R5 = "C07.outputs-behind-checks"
 	r.Rule(R1, "every success return of Evaluate is dominated by RateLimitedTokenRequest.Unmarshal(encodedRequest)=true on the request object all later checks read", 1)
-	r.Rule(R1b, "on every success return of the request decoder, every cryptobyte read is checked, the signature is read, and the final Empty() holds (no trailing data)", 1)
+	r.Rule(R1b, "on every success return of the request decoder and of the inner (decrypted) request decoder, every cryptobyte read is checked, the signature is read (outer), and the final Empty() holds (no trailing data)", 2)
 	r.Rule(R2, "every success return is dominated by SetupBaseR(nameKey.suite, nameKey.privateKey, enc, \"TokenRequest\")=ok and Open(aad, ct)=ok with aad = key id||kem||kdf||aead||type||request key||SHA-256(name key encoding)", 2)
 	r.Rule(R3, "every success return is dominated by ok=true of originIndexKeys[unpadOriginName(inner.paddedOrigin)] on the decrypted inner request", 1)
 	r.Rule(R4, "every success return is dominated by ecdsa.Verify(decode(req.RequestKey), SHA-384(type||RequestKey||NameKeyID||len16 EncryptedTokenRequest), halves of req.Signature)=true", 1)
@@ -134,6 +134,52 @@ func c07(p *Prog, r *Report) {
 		}
 		if nS == 0 {
 			r.Fail(R1b, "RateLimitedTokenRequest.Unmarshal success path", p.Pos(dfn.Pos()), "decoder has no success return")
+		}
+	}
+	// the decrypted inner request is part of the request: it too must parse
+	// completely (no bytes after the padded origin)
+	if ifn := anchor(p, r, R1b, "(*~/tokens/type3.InnerTokenRequest).Unmarshal"); ifn != nil {
+		r.List("functions", shortName(ifn))
+		is := p.NewSym(ifn)
+		irps := is.ff.RetPoints(verdictIndex(ifn))
+		nS := 0
+		for i := range irps {
+			rp := &irps[i]
+			if rp.Outcome == Fails {
+				continue
+			}
+			nS++
+			items := p.ReadSequence(is, rp)
+			var probs []string
+			last, mainReader := "", ""
+			if len(items) > 0 {
+				mainReader = items[0].Reader
+			}
+			for _, it := range items {
+				if !it.Checked {
+					probs = append(probs, "unchecked read "+it.String()+" at "+p.InstrPos(it.Call))
+				} else if !it.Result && it.Op != "empty" {
+					probs = append(probs, "read "+it.String()+" failed on an accepting path")
+				}
+				if it.Reader == mainReader {
+					last = it.Op
+					if it.Op == "empty" && !it.Result {
+						last = "empty=false"
+					}
+				}
+			}
+			if last != "empty" {
+				probs = append(probs, "the path does not end with a checked Empty(): bytes after the padded origin are accepted, so the issuer answers a request whose inner part does not parse completely")
+			}
+			key := "InnerTokenRequest.Unmarshal success path"
+			if len(probs) > 0 {
+				r.Fail(R1b, key, p.Pos(rp.Ret.Pos()), strings.Join(probs, "; ")+" [reads: "+readSeqString(items)+"]")
+			} else {
+				r.OK(R1b, key, p.Pos(rp.Ret.Pos()), "reads: "+readSeqString(items))
+			}
+		}
+		if nS == 0 {
+			r.Fail(R1b, "InnerTokenRequest.Unmarshal success path", p.Pos(ifn.Pos()), "decoder has no success return")
 		}
 	}
 
